@@ -43,7 +43,7 @@ func runIncidents(c *run.Ctx, kinds []string) {
 	ep.Cfg.ReconnectWaitMin, ep.Cfg.ReconnectWaitMax = c10Min, c10Max
 	ep.Cfg.AtLeastOnceMax, ep.Cfg.ExactlyOnceMax = 32, 32
 	// scripted decisions, set per incident
-	var failWriter, gateWriter, failAck, skipBig, gateResend bool
+	var failWriter, gateWriter, failAck, skipBig, gateResend, gateMidRead bool
 	var failDials, failHandshake, failResend, refuse, failLoadID int
 	parkAt := ""
 	w.Mu.Lock()
@@ -134,10 +134,16 @@ func runIncidents(c *run.Ctx, kinds []string) {
 	w.Broker.AckPolicy = awaitPolicy
 	w.ReadPlan = func(cn *sim.Conn, avail int) sim.ReadDecision {
 		if avail == 0 {
+			d := sim.ReadDecision{Then: "block"}
 			if cn.ReadDeadlineArmed() && cn.MidPacket() {
-				return sim.ReadDecision{Then: "timeout"}
+				d.Then = "timeout"
 			}
-			return sim.ReadDecision{Then: "block"}
+			if gateMidRead && cn.MidPacket() {
+				// the wait inside the packet lasts long enough for another
+				// goroutine's write to come and go (decided anew afterwards)
+				d.Gate = "midread"
+			}
+			return d
 		}
 		if avail > 1 && w.Rng.Intn(3) == 0 {
 			return sim.ReadDecision{Deliver: 1 + w.Rng.Intn(avail-1)}
@@ -354,6 +360,26 @@ func runIncidents(c *run.Ctx, kinds []string) {
 			conn.EndInbound(-1, &netReset{})
 		case "read-expiry-mid-packet":
 			pk := wire.Publish("in/"+tag, []byte("payload"), 0, 0, false, false)
+			if c.Rng.Intn(2) == 0 {
+				// while the read routine waits inside the packet a write of
+				// somebody else completes on the connection
+				set(func() { gateMidRead = true })
+				conn.Send(pk[:1+c.Rng.Intn(len(pk)-1)], "truncated PUBLISH, then silence")
+				if w.WaitGateWaiting("midread", 1, sim.StepTimeout) {
+					// (a single-buffer write: the answer is withheld, nothing comes in)
+					w.Mu.Lock()
+					held0 := len(w.Broker.Held)
+					w.Mu.Unlock()
+					wr := d.Go("Subscribe", func() error { return d.C.Subscribe(nil, "c10/await/meanwhile/"+tag) })
+					w.WaitUntil(sim.StepTimeout, func() bool { return len(w.Broker.Held) > held0 || wr.Returned() })
+					pending = append(pending, wr)
+				}
+				set(func() { gateMidRead = false })
+				w.Open("midread")
+				w.WaitUntil(sim.StepTimeout, func() bool { return w.Gate("midread").Waiting == 0 })
+				w.ResetGate("midread")
+				break
+			}
 			conn.Send(pk[:1+c.Rng.Intn(len(pk)-1)], "truncated PUBLISH, then silence")
 		case "expiry-while-skipping-big-duplicate", "expiry-while-skipping-unread-big":
 			// a message beyond the read buffer, complete; the read loop takes it
